@@ -22,9 +22,9 @@ type classes struct {
 func vbftM(n int) int { return n - n*6/7 }
 
 // classify mirrors the three finding-class predicates of Proofs/C32.v (checked per case by CClass).
-func (e *env) classify(sp *hdrSpec) classes {
+func (e *env) classify(sp *hdrSpec, ids []int) classes {
 	var cl classes
-	cl.dup = len(distinct(sp.Bks)) != len(sp.Bks)
+	cl.dup = len(distinct(ids)) != len(ids)
 	g, ok := e.claimedHeight(sp)
 	if !ok {
 		return cl
@@ -45,9 +45,33 @@ func (r *run) oracle(sp *hdrSpec, h *types.Header, m *mHeader, accepted bool, sc
 	c, e := r.c, r.e
 	hash := h.Hash()
 	// (0) the signature abstraction used by the cases agrees with real verification, both ways
-	if accepted || c.Intn(8) == 0 {
+	ids := bkIDs(m.Bks)         // PubkeyID ids of the listed key objects
+	genuine := bkGenuine(m.Bks) // per position: pool key whose GENUINE object is listed, or -1
+	hostile := false
+	for i, b := range m.Bks {
+		if !b.Forged {
+			continue
+		}
+		hostile = true
+		// a forged key object: no signature of the header verifies under it (library called directly)
+		for _, raw := range h.SigData {
+			ok, pan := guardedVerify(h.Bookkeepers[i], hash[:], raw)
+			if ok {
+				c.Fail("harness:forged-key-verifies", "a signature verifies under a key object that is no genuine pool key", sc, "verifies", "does not verify")
+			}
+			if pan {
+				c.Count("forged-key:library-verify-panics")
+			} else {
+				c.Count("forged-key:library-verify-false")
+			}
+		}
+	}
+	if accepted || hostile || c.Intn(8) == 0 {
 		for i, raw := range h.SigData {
-			for _, k := range distinct(sp.Bks) {
+			for _, k := range distinct(genuine) {
+				if k < 0 {
+					continue
+				}
 				abs := !m.Sigs[i].Bad && m.Sigs[i].K == k && m.Sigs[i].Msg == m.Hash
 				if real := e.realVerify(k, hash[:], raw); real != abs {
 					c.Fail("harness:signature-abstraction", "abstract signature disagrees with signature.Verify", sc, real, abs)
@@ -59,7 +83,7 @@ func (r *run) oracle(sp *hdrSpec, h *types.Header, m *mHeader, accepted bool, sc
 		return
 	}
 	c.Count("oracle:accepted")
-	cl := e.classify(sp)
+	cl := e.classify(sp, ids)
 	if !cl.hasClaim {
 		c.Fail("accept:no-config", "accepted although no configuration height is determined", sc, "accepted", "rejected")
 		return
@@ -73,19 +97,19 @@ func (r *run) oracle(sp *hdrSpec, h *types.Header, m *mHeader, accepted bool, sc
 	n := len(claimedPeers)
 	need := vbftM(n)
 	// (1) every listed bookkeeper is a member of the consulted configuration
-	for _, k := range sp.Bks {
+	for _, k := range ids {
 		if !contains(claimedPeers, k) {
 			c.Fail("accept:nonmember-listed", "accepted header lists a key that is not a peer of the consulted configuration", sc, k, claimedPeers)
 			break
 		}
 	}
 	// (2) at least C+1 distinct keys are listed
-	if uint64(claimedCfg.C)+1 < 1<<32 && uint64(len(distinct(sp.Bks))) < uint64(claimedCfg.C)+1 {
-		c.Fail("accept:few-distinct-listed", "accepted header lists fewer than C+1 distinct keys", sc, len(distinct(sp.Bks)), claimedCfg.C+1)
+	if uint64(claimedCfg.C)+1 < 1<<32 && uint64(len(distinct(ids))) < uint64(claimedCfg.C)+1 {
+		c.Fail("accept:few-distinct-listed", "accepted header lists fewer than C+1 distinct keys", sc, len(distinct(ids)), claimedCfg.C+1)
 	}
 	// (3) the first m signatures can be matched to m distinct list positions (real verification)
 	if need > 0 {
-		if len(h.SigData) < need || !matchSlots(e, hash[:], sp.Bks, h.SigData[:need]) {
+		if len(h.SigData) < need || !matchSlots(e, hash[:], genuine, h.SigData[:need]) {
 			c.Fail("accept:unsigned-slot", "accepted header whose first m signatures are not valid signatures of m distinct list positions", sc, "accepted", fmt.Sprintf("m=%d", need))
 		}
 	}
@@ -106,8 +130,15 @@ func (r *run) oracle(sp *hdrSpec, h *types.Header, m *mHeader, accepted bool, sc
 		return out
 	}
 	// (4) some peer of the consulted peer set signed
-	if n > 0 && len(signers(&mCfg{Peers: claimedPeers})) == 0 {
+	consultedSigners := signers(&mCfg{Peers: claimedPeers})
+	if n > 0 && len(consultedSigners) == 0 {
 		c.Fail("accept:no-member-signature", "accepted header without any valid signature of a member of the consulted configuration", sc, 0, ">=1")
+	}
+	// (4b) without repeated ids the m signature slots need m distinct GENUINE signers among the
+	// consulted peers (verified with the members' genuine key objects, library called directly)
+	if !cl.dup && len(consultedSigners) < need {
+		c.Fail("accept:without-genuine-quorum", "accepted header with fewer genuine member signatures than the m slots verifyHeader asks for",
+			sc, map[string]interface{}{"genuine_signers": consultedSigners, "listed": m.Bks}, fmt.Sprintf(">= %d", need))
 	}
 	// (5) THE PROPERTY: valid signatures of >= C+1 distinct members of the governing configuration
 	gov, gok := e.govHeight(sp.Height)
@@ -154,7 +185,7 @@ func matchSlots(e *env, data []byte, bks []int, sigs [][]byte) bool {
 		}
 		tried := map[int]bool{}
 		for j, k := range bks {
-			if used[j] || tried[k] {
+			if k < 0 || used[j] || tried[k] {
 				continue
 			}
 			tried[k] = true
